@@ -1,5 +1,6 @@
 //! C03 Clean shutdown persists everything; synced log records survive crashes.
 
+use proptest::strategy::Strategy as _;
 use super::{c02::*, *};
 use crate::{interp::*, runner::*, spec::*};
 use std::path::Path;
@@ -63,7 +64,10 @@ fn run(ctx: &Ctx) {
 		return
 	}
 	let n = scaled(ctx, 400, 8_000);
-	if !ctx.run_prop("drop-bg", n, crash_scenario(3, 4, 14, true, 40_000), |sc, dir| run_drop_scenario(sc, dir, true)) {
+	if !ctx.run_prop("drop-bg", n, (crash_scenario(3, 4, 14, true, 40_000), 0u8..3).prop_map(|(mut sc, af)| {
+		sc.cfg.always_flush = af > 0;
+		sc
+	}), |sc, dir| run_drop_scenario(sc, dir, true)) {
 		return
 	}
 	let opts = CrashOpts { cap: if thorough { 300 } else { 100 }, rec_depth: 1, synced_bound: true, tail: false, layout: false, tolerate_known: true };
